@@ -12,7 +12,7 @@ import gram
 from impl import trees, treeoutput, treeinput, treeanalysis, quiet, clone
 
 ID = "C03"
-MODULE = ['TT.Props.C03', 'TT.Props.C03Own']
+MODULE = ['TT.Props.C03', 'TT.Props.C03Own', 'TT.Props.C03Options']
 RULE = ("`treetools transform` on generated treebanks (1..4 sentences) for all 4x5 (source, destination) format pairs, "
         "A->B->A chains, own-format round trips, encodings utf-8 / latin-1 / utf-16 on either side, gzip sources, "
         "directory sources, export v3/v4. The destination is decoded by the specification decoder and compared with "
@@ -179,7 +179,27 @@ def one(rng):
     return Case("%s->%s" % (F, G), desc, lines, nontrivial=F != G, tags=[senc + ">" + denc] + (["gz"] if gz else []) + (["dir"] if dirmode else []))
 
 
+def options_case(rng):
+    from impl import misc
+    pool = ["quiet", "gf", "gf_separator:#", "gf_separator:-", "brackets_firstid:12", "brackets_firstid:0", "filtervalue:007",
+            "a:b:c", "key:", ":v", " padded:1 ", "relc:PRELS", "v:1", "h:2", "nofanout", "x:1.5", "y:-3", "quiet:yes"]
+    opts = [rng.choice(pool) for _ in range(rng.randint(0, 5))]
+    try:
+        d = misc.options_dict(opts)
+        out = ";".join("%s=%s" % (proto.enc_s(k), "T" if v is True else ("I%d" % v if isinstance(v, int) else "S" + proto.enc_s(v)))
+                       for k, v in d.items())
+    except Exception as e:
+        out = proto.err_name(e)
+    lines = [Line("corr", "options_dict", [",".join(proto.enc_s(o) for o in opts)], out)]
+    return Case("options_dict", {"options": opts, "dict": out}, lines, nontrivial=len(opts) > 1)
+
+
 def gen(seed, tier, scale):
+    idx = 100000
+    for _ in range((300 if tier == "quick" else 5000) * scale):
+        rng = case_rng(seed, ID, idx)
+        yield idx, options_case(rng)
+        idx += 1
     idx = 0
     n = (160 if tier == "quick" else 3000) * scale
     rngs = [case_rng(seed, ID, idx + i) for i in range(n)]
